@@ -536,4 +536,6 @@ def check_small_semantics(ctx: Ctx, oid: str, encoder: bool = True, dfs: bool = 
             ctx.ob(oid, "R18 table", pc, f"DFS propagation of `{tag}` narrows exactly as the constraint demands", body_ok, "", node=arm if arm is not None else pc.node)
         pad = ctx.func("cp", "Model._propagate_all_different")
         t = ast.unparse(pad.node)
-        ctx.ob(oid, "R18 table", pad, "DFS all_different removes an assigned value from every other variable of the constraint", "if len(domains[var.name]) == 1:\n            val = next(iter(domains[var.name]))\n            for other in variables:\n                if other is not var:\n                    domains[other.name].discard(val)" in t and "for var in variables:" in t, "", node=pad.node)
+        ctx.ob(oid, "R18 table", pad, "DFS all_different removes an assigned value from every other position of the constraint", "if len(domains[var.name]) == 1:\n            val = next(iter(domains[var.name]))\n            for j, other in enumerate(variables):\n                if j != i:\n                    domains[other.name].discard(val)" in t and "for i, var in enumerate(variables):" in t, "", node=pad.node)
+        ident = [n for n in own_nodes(pad.node) if isinstance(n, ast.Compare) and any(isinstance(o, (ast.Is, ast.IsNot)) for o in n.ops) and {"var", "other"} <= names_in(n)]
+        ctx.ob(oid, "R18 table", pad, "the other positions are told apart by position, not by object identity", not ident, f"`{ast.unparse(ident[0]) if ident else ''}`: a variable listed twice in all_different is then never compared with itself, and DFS returns an assignment for an unsatisfiable constraint (all_different([x, x]))", node=ident[0] if ident else pad.node)
